@@ -212,6 +212,27 @@ ev_recv(int i, int blocking)
 	}
 	monitor();
 }
+/* NNG_OPT_RECVBUF := n while messages may be buffered (and the ring may have wrapped) */
+static void
+ev_recvbuf(int n)
+{
+	int v = n;
+	KNEED(!sock_closed);
+	if (kstop)
+		return;
+	KQ_SNAP(&sock.recv_msgs);
+	nng_err brv = bus0_sock_set_recv_buf_len(&sock, &v, sizeof(v), NNI_TYPE_INT32);
+	KQ_FAULT_RESULT(brv, &sock.recv_msgs);
+	CHECK(brv == 0, "set RECVBUF");
+	size_t keep = ksn_len < (size_t) n ? ksn_len : (size_t) n;
+	CHECK(nni_lmq_len(&sock.recv_msgs) == keep, "C18: resizing the receive buffer discards only as many whole messages as no longer fit");
+	for (size_t k = 0; k < 8; k++)
+		if (k < keep)
+			CHECK(sock.recv_msgs.lmq_msgs[(sock.recv_msgs.lmq_get + k) & sock.recv_msgs.lmq_mask]->id == ksn_id[k],
+			    "C09/C18: resizing the receive buffer keeps the buffered messages in their arrival order");
+	monitor();
+	WITNESS("receive buffer resized");
+}
 static void
 ev_pipe_lost(int p)
 {
@@ -263,6 +284,7 @@ ev_close(void)
 #define W(p) if (!kstop) ev_wire(p);
 #define R(i, b) if (!kstop) ev_recv(i, b);
 #define C(p) if (!kstop) ev_pipe_lost(p);
+#define Q(n) if (!kstop) ev_recvbuf(n);
 #define Z if (!kstop) ev_close();
 #ifndef SKEL
 #define SKEL A(0) A(1) S(0, 0) Z
@@ -282,5 +304,10 @@ harness(void)
 	SKEL
 	if (!kstop)
 		WITNESS("skeleton ran to its end");
+#ifdef MUSTEND
+	/* a curated skeleton whose every event is applicable on the library as it should be: an event that finds nothing to act
+	 * on (e.g. no transfer outstanding because a message vanished) is a failure, not the end of the skeleton */
+	CHECK(!kstop, "every event of the skeleton found the library in the state the previous events must have left it in");
+#endif
 	WITNESS("end");
 }
